@@ -145,5 +145,14 @@ PROPS["C09"] = {
             "package); the monitor sees only the executions of the bounded domain.",
     "undecided": ["purity for all requests", "preview text == written text"],
 }
+PROPS["C07"] = {
+    "sidecars": ["c07_selector.py"],
+    "level": "proof",
+    "claim": "Proof level for the selection kernel of 'remove unused imports': _OneTimeSelector keeps an import exactly when some dotted prefix of what it binds "
+             "is wanted and not yet provided, and then marks every prefix as provided; nothing is ever unselected -- for every name set (loops with early return, "
+             "existential postcondition).  That names keep resolving, exports stay available and the actions are idempotent is an exhaustive small-scope stand-in.",
+    "note": "_get_dotted_tokens (split/join) is abstract; visitors over import statements, sorting and text rewriting are not under contract.",
+    "undecided": ["FilteringVisitor / AddingVisitor / remove_duplicates", "relative->absolute and long-import handling for all modules"],
+}
 _NB = "check not built yet (framework under construction; see DESIGN.md section 8)"
 NOT_APPLICABLE = {"C%02d" % i: _NB for i in range(1, 21)}
